@@ -89,6 +89,10 @@ class SimFS:
         if self.dead:
             raise SimCrash()
         f = self.fail.get(ap)
+        if "b" not in mode and not kw.get("encoding") and len(a) < 2:
+            from . import simproc
+
+            kw["encoding"] = simproc.current_locale()  # no explicit encoding: the locale's (a per-run knob)
         if "r" in mode and "+" not in mode:
             if f and f[0] == "r":
                 self.counters["err@open_r/" + _errno.errorcode.get(f[1], str(f[1]))] += 1
